@@ -57,7 +57,12 @@ class BoundedStream(io.IOBase):
         return self
 
     def __next__(self) -> bytes:
-        return next(self.stream)
+        # NOTE: Go through readline() so that iteration cannot run past the
+        #   expected content length.
+        line = self.readline()
+        if not line:
+            raise StopIteration
+        return line
 
     next = __next__
 
@@ -84,8 +89,17 @@ class BoundedStream(io.IOBase):
         if size is None or size == -1 or size > self._bytes_remaining:
             size = self._bytes_remaining
 
-        self._bytes_remaining -= size
-        return target(size)
+        data = target(size)
+
+        # NOTE: Account for what was actually returned; readline() and short
+        #   reads yield fewer bytes than requested. No data at all means that
+        #   the wrapped stream has ended early.
+        if data or size <= 0:
+            self._bytes_remaining -= len(data)
+        else:
+            self._bytes_remaining = 0
+
+        return data
 
     def readable(self) -> bool:
         """Return ``True`` always."""
@@ -139,7 +153,22 @@ class BoundedStream(io.IOBase):
 
         """
 
-        return self._read(hint, self.stream.readlines)
+        # NOTE: The wrapped stream's readlines() only treats the hint as
+        #   approximate and would read past the expected content length.
+        lines: List[bytes] = []
+        total = 0
+
+        while True:
+            line = self.readline()
+            if not line:
+                break
+
+            lines.append(line)
+            total += len(line)
+            if hint is not None and 0 < hint <= total:
+                break
+
+        return lines
 
     def write(self, data: bytes) -> None:
         """Raise IOError always; writing is not supported."""
